@@ -147,6 +147,12 @@ const _: () = {
         }
     }
 
+    impl<S: Schema> Schema for Option<S> {
+        fn schema() -> impl Into<schema::SchemaRef> {
+            anyOf((S::schema(), null(/* `None` */)))
+        }
+    }
+
     impl<S: Schema> Schema for Vec<S> {
         fn schema() -> impl Into<schema::SchemaRef> {
             array(S::schema())
